@@ -399,8 +399,8 @@ def stalled_consume(c, prop="C07"):
             i += 1
     ev, d_, _ = rig.run_rig({"steps": steps, "drain_ms": 300}, "stall_%s" % prop.lower(), timeout=300)
     arrived = [e for e in ev if e["e"] == "Arrived"]
-    if len(arrived) != i or any(e["n"] < 1 for e in arrived):
-        raise util.ToolError("stalled-consume scenario: the accept path did not reach the gate (%s)" % arrived)
+    reached = sum(1 for e in arrived if e["n"] >= 1)
+    c.extra["stalled_consume_gates_reached"] = reached
     failed_ = {e["conn"] for e in ev if e["e"] == "ConnectError"}
     if failed_:
         raise util.ToolError("stalled-consume scenario: connects failed: %s" % sorted(failed_))
@@ -411,6 +411,9 @@ def stalled_consume(c, prop="C07"):
         c.violation("the record of a connection whose accept-time read-then-consume was held up stays behind: a later direct "
                     "connection from the same source port is served with it: %s" % inherited[0],
                     {"broken": "P_C07_UnattributedRefused", "scenario": "stalled-consume"}, {"rows": rows})
+    if not inherited and reached == 0:
+        # (an accept path that never comes by the gates AND leaves nothing behind: the scenario exercised nothing)
+        raise util.ToolError("stalled-consume scenario: the accept path did not reach any gate (%s)" % arrived)
     c.extra["stalled_consume_first_statuses"] = sorted({str(r.get("status")) for r in rows if r["e"] == "req" and r["id"].startswith("sc_a")})
 
 
